@@ -565,6 +565,9 @@ func (h *c38History) afterWrite(op *vmodel.Op, m *vmodel.Model) {
 			}
 		}
 		for _, d := range wdiffs {
+			if d.Field == "content-type" && op.ContentType != nil {
+				d.Field = "content-type:explicit" // the request named a content type (unlike the SDK-default case)
+			}
 			if seenField[d.Field] {
 				continue
 			}
@@ -636,6 +639,7 @@ func (h *c38History) probes(rng *vkit.Rand, m *vmodel.Model, final bool) {
 		}
 		h.r.Count("list_versions_paging_probes", 1)
 	}
+	h.rangeProbes(rng, m)
 	if !final {
 		return
 	}
@@ -711,6 +715,71 @@ func (h *c38History) probes(rng *vkit.Rand, m *vmodel.Model, final bool) {
 		ua, u0 := fmt.Sprintf("%+v", xa.Uploads), fmt.Sprintf("%+v", x0.Uploads)
 		if ua != u0 {
 			h.add("s3client-diverges:list-uploads:snapshot", fmt.Sprintf("uploads of %s through the S3 client %s, directly %s", x0.Name, ua, u0), false, "")
+		}
+	}
+}
+
+// rangeProbes reads byte ranges (closed, open-ended, suffix, two ranges at once)
+// of current objects through the S3 client and directly from its backing storage.
+func (h *c38History) rangeProbes(rng *vkit.Rand, m *vmodel.Model) {
+	type target struct {
+		b, k string
+		n    int64
+	}
+	var ts []target
+	for _, bn := range vkit.SortedKeys(m.Buckets) {
+		b := m.Buckets[bn]
+		for _, k := range vkit.SortedKeys(b.Keys) {
+			if cur := b.CurrentObject(k); cur != nil && len(cur.Content) >= 4 {
+				ts = append(ts, target{bn, k, int64(len(cur.Content))})
+			}
+		}
+	}
+	read := func(s storage.Storage, t target, ranges []storage.ByteRange) (string, []string) {
+		_, rds, err := s.GetObject(h.ctx, storage.MustNewBucketName(t.b), storage.MustNewObjectKey(t.k), ranges, nil)
+		if err != nil {
+			return strictKind(err) + " " + errDetail(err), nil
+		}
+		var out []string
+		for _, rd := range rds {
+			var buf bytes.Buffer
+			_, rerr := buf.ReadFrom(rd)
+			_ = rd.Close()
+			e := ""
+			if rerr != nil {
+				e = " read error: " + rerr.Error()
+			}
+			out = append(out, vkit.Brief(buf.Bytes())+e)
+		}
+		return "", out
+	}
+	for i := 0; i < 2 && len(ts) > 0; i++ {
+		t := ts[rng.Intn(len(ts))]
+		st := int64(rng.Intn(int(t.n - 1)))
+		en := st + 1 + int64(rng.Intn(int(t.n-st)))
+		suffix := int64(1 + rng.Intn(int(t.n)))
+		forms := []struct {
+			name   string
+			ranges []storage.ByteRange
+		}{
+			{"closed", []storage.ByteRange{{Start: &st, End: &en}}},
+			{"open-ended", []storage.ByteRange{{Start: &st}}},
+			{"suffix", []storage.ByteRange{{End: &suffix}}},
+			{"two-ranges", []storage.ByteRange{{Start: &st, End: &en}, {End: &suffix}}},
+			{"first-byte", []storage.ByteRange{{Start: vkit.Ptr(int64(0)), End: vkit.Ptr(int64(1))}}},
+			{"last-byte", []storage.ByteRange{{Start: vkit.Ptr(t.n - 1), End: vkit.Ptr(t.n)}}},
+		}
+		for _, f := range forms {
+			ka, ba := read(h.st.a, t, f.ranges)
+			k0, b0 := read(h.st.a0, t, f.ranges)
+			where := fmt.Sprintf("%s/%s (%dB) %s start=%d end=%d suffix=%d", t.b, t.k, t.n, f.name, st, en, suffix)
+			switch {
+			case (ka == "") != (k0 == "") || (ka != "" && strings.Fields(ka)[0] != strings.Fields(k0)[0]):
+				h.add("s3client-diverges:get-range:error-kind:"+f.name, fmt.Sprintf("range read %s: via S3 client %q, directly %q", where, ka, k0), false, "")
+			case strings.Join(ba, ",") != strings.Join(b0, ","):
+				h.add("s3client-diverges:get-range:content:"+f.name, fmt.Sprintf("range read %s: via S3 client %v, directly %v", where, ba, b0), false, "")
+			}
+			h.r.Count("range_reads_compared:"+f.name, 1)
 		}
 	}
 }
